@@ -53,6 +53,13 @@ size_t cmpSize, int compressionType, float* hist_data)
 	int status = SZ_SCES;
 	size_t dataLength = computeDataLength(r5,r4,r3,r2,r1);
 	
+	if(dataLength <= MIN_NUM_OF_ELEMENTS) //such arrays are stored verbatim by SZ_skip_compress_float
+	{
+		*newData = (float*)malloc(dataLength*sizeof(float));
+		memcpy(*newData, cmpBytes, dataLength*sizeof(float));
+		return status;
+	}
+	
 	//unsigned char* tmpBytes;
 	size_t targetUncompressSize = dataLength <<2; //i.e., *4
 	//tmpSize must be "much" smaller than dataLength
